@@ -85,8 +85,8 @@ def run_shard(task):
                     if len(out["samples"]) < 2:
                         out["samples"].append(common.short(case))
 
-        def record(v):
-            case = state["last"]
+        def record(v, case=None):
+            case = state["last"] if case is None else case
             out["violations"].append(dict(bucket=v.bucket, message=v.message, detail=v.detail, case=case))
             swallow.add(v.bucket)
 
@@ -121,6 +121,7 @@ def run_shard(task):
                               verbosity=hypothesis.Verbosity.quiet)
 
                 failing = [False]
+                first_fail = []
 
                 def body(case):
                     # the wall-clock budget only limits *generation*; once a failure is being shrunk the
@@ -130,13 +131,24 @@ def run_shard(task):
                         return
                     try:
                         one(case)
-                    except PropertyViolation:
+                    except PropertyViolation as v:
                         failing[0] = True
+                        if not first_fail:
+                            first_fail.append((case, v))
                         raise
 
                 test = hypothesis.seed(task["seed"] + 7919 * rnd)(st(given(sub.strategy(task["tier"]))(body)))
                 try:
                     test()
+                    break
+                except hypothesis.errors.Flaky:
+                    # the same generated case violated the property in one execution and not in another: the code under test keeps
+                    # state between executions (a process-wide cache, a shared tensor).  The violation was observed on the real code,
+                    # so it is reported - with the case on which it was first seen - rather than treated as a harness problem.
+                    if not first_fail:
+                        raise
+                    fc, fv = first_fail[0]
+                    record(PropertyViolation("not-repeatable:" + fv.bucket, "(the outcome of this case depends on what the process executed before) " + fv.message, fv.detail), fc)
                     break
                 except PropertyViolation as v:
                     record(v)
